@@ -149,14 +149,18 @@ def r2(ctx):
     # accumulation in NumberDataType::readRawValue
     fn = fb.fn('ebusd::NumberDataType::readRawValue')
     ctx.touch(fn)
-    accs = [nid for nid, d, rhs, op, lhs in fn.assignments() if op == '+=' and lhs is not None and fn.key(lhs) == '*value']
+    outp = fn.P(3)
+    accs = [nid for nid, d, rhs, op, lhs in fn.assignments() if op == '+=' and lhs is not None and fn.key(lhs) == '*' + outp]
     if not accs:
         raise AnalysisBroken('C05.R2: decimal accumulation in NumberDataType::readRawValue not found')
-    sym_defs = [nid for nid, d, rhs, op, lhs in fn.assignments() if d and d.endswith(':symbol') and rhs is not None and
+    sym_defs = [(nid, d.split(':')[-1]) for nid, d, rhs, op, lhs in fn.assignments() if d and rhs is not None and
                 'dataAt' in fn.key(rhs)]
+    if not sym_defs:
+        raise AnalysisBroken('C05.R2: symbol read in NumberDataType::readRawValue not found')
+    sym = sym_defs[0][1]
     for a in accs:
-        frm = fn.block_of(sym_defs[0]) if sym_defs else None
-        ok = fn.needs_one_of(a, [('((symbol & #15) <= #9)', True), ('(symbol <= #99)', True)], frm=frm)
+        frm = fn.block_of(sym_defs[0][0])
+        ok = fn.needs_one_of(a, [('((%s & #15) <= #9)' % sym, True), ('(%s <= #99)' % sym, True)], frm=frm)
         n += 1
         ctx.ob('C05.R2', fn, a, ok, 'digit pair accumulation', 'every path from reading the symbol to the accumulation passes a '
                'digit guard: %s' % ok)
@@ -164,8 +168,11 @@ def r2(ctx):
         raise AnalysisBroken('C05.R2: only %d digit conversion sites recognised' % n)
 
 
-def numeric_insertions(fn, stream='output'):
+def numeric_insertions(fn, stream=None):
     import rules.C12 as c12
+    if stream is None:
+        sp = [p['name'] for p in fn.params if 'ostream' in p.get('t', '')]
+        stream = sp[0] if sp else 'output'
     out = []
     for nid, v in sorted(fn.nodes.items()):
         if v['k'] == 'CXXOperatorCallExpr' and v.get('op') == '<<' and len(v.get('args', [])) == 2 and \
@@ -196,7 +203,7 @@ def r3(ctx):
         raise AnalysisBroken('C05.R3: checkValueRange call not found in readFromRawValue')
     rname = ret_defs[0].split(':')[-1]
     for i in numeric_insertions(fn):
-        ok = fn.needs_one_of(i, [('skipRangeCheck', True), ('(%s == #0)' % rname, True)])
+        ok = fn.needs_one_of(i, [(fn.P(3), True), ('(%s == #0)' % rname, True)])
         ctx.ob('C05.R3', fn, i, ok, 'numeric insertion %s' % fn.key(fn.nodes[i]['args'][1]),
                'reached only after range check OK or explicit skip: %s' % ok)
     g = fb.fn('ebusd::NumberDataType::getFloatFromRawValue')
@@ -204,7 +211,7 @@ def r3(ctx):
     gret = [d for nid, d, rhs, op, lhs in g.assignments() if rhs is not None and 'checkValueRange(' in g.key(rhs)]
     gname = gret[0].split(':')[-1] if gret else 'ret'
     for nid, d, rhs, op, lhs in g.assignments():
-        if lhs is not None and g.key(lhs) == '*output':
+        if lhs is not None and g.key(lhs) == '*' + g.P(1):
             atoms = set((a[0], a[1]) for a in g.atoms(nid))
             ok = ('(%s == #0)' % gname, True) in atoms
             ctx.ob('C05.R3', g, nid, ok, 'float result store', 'dominated by range check OK: %s' % ok)
@@ -229,7 +236,7 @@ def r4(ctx):
     for name in ('ebusd::NumberDataType::readFromRawValue', 'ebusd::NumberDataType::getFloatFromRawValue'):
         fn = fb.fn(name)
         ctx.touch(fn)
-        edges = fn.edges_with_atom('(value == this.m_replacement)', True)
+        edges = fn.edges_with_atom('(%s == this.m_replacement)' % fn.P(0), True)
         if not edges:
             raise AnalysisBroken('C05.R4: replacement test not found in %s' % name)
         okall = True
@@ -249,7 +256,7 @@ def r4(ctx):
                         why.append('numeric insertion at line %d reachable for the replacement value' % fn.line_of(i))
             else:
                 for nid, d, rhs, op, lhs in fn.assignments():
-                    if lhs is not None and fn.key(lhs) == '*output' and fn.block_of(nid) in region:
+                    if lhs is not None and fn.key(lhs) == '*' + fn.P(1) and fn.block_of(nid) in region:
                         okall = False
                         why.append('value stored for the replacement pattern')
         ctx.ob('C05.R4', fn, fn.body, okall, 'replacement handling in %s' % name.split('::')[-1], '; '.join(why) or 'null branch returns before any number is produced')
@@ -280,8 +287,12 @@ def r5(ctx):
                     if xv['k'] == 'BinaryOperator' and xv.get('op') in ('>', '<', '>=', '<='):
                         have.add((fn.key(xv['lhs']), xv['op'], fn.key(xv['rhs'])))
                 break
-    want = [('symbol', '>', '#31'), ('symbol', '>', '#12'), ('symbol', '>', '#24'), ('symbol', '>', '#59'),
-            ('minutes', '>', '#1440'), ('(symbol & #240)', '>', '#144'), ('(symbol & #15)', '>', '#9'), ('symbol', '<', '#1')]
+    syms = fn.local_where(lambda k, r: 'dataAt(' in k)
+    sym = syms[0] if syms else 'symbol'
+    mins = [l for (l, o, r) in have if r == '#1440']
+    mn = mins[0] if mins else 'minutes'
+    want = [(sym, '>', '#31'), (sym, '>', '#12'), (sym, '>', '#24'), (sym, '>', '#59'),
+            (mn, '>', '#1440'), ('(%s & #240)' % sym, '>', '#144'), ('(%s & #15)' % sym, '>', '#9'), (sym, '<', '#1')]
     for w in want:
         ctx.ob('C05.R5', fn, fn.body, w in have, 'rejects %s %s %s' % w, 'present among out-of-range guards: %s' % (w in have),
                nontrivial=False)
